@@ -28,10 +28,10 @@ def wdata(t, m, tag):
 
 
 class AxiIcDUT(Module):
-    def __init__(self, proto, kind, nm, ns, timeout):
+    def __init__(self, proto, kind, nm, ns, timeout, dw=32):
         full = proto == "full"
-        mkif = (lambda: axi_full.AXIInterface(data_width=32, address_width=AWIDTH, id_width=2)) if full else \
-               (lambda: axi_lite.AXILiteInterface(data_width=32, address_width=AWIDTH))
+        mkif = (lambda: axi_full.AXIInterface(data_width=dw, address_width=AWIDTH, id_width=2)) if full else \
+               (lambda: axi_lite.AXILiteInterface(data_width=dw, address_width=AWIDTH))
         self.masters = [mkif() for _ in range(nm)]
         self.slaves = [mkif() for _ in range(ns)]
         regions = [SoCRegion(origin=64*j, size=64) for j in range(ns)]
@@ -71,8 +71,9 @@ class AxiIcHarness(Harness):
 
     def __init__(self, name, proto, kind, nm, ns, mode="mixed", timeout=None, w_before_aw=False, w_late=True, greedy=False,
                  err=False, faults=None, unmapped=False, cap=None, die_after_accept=False, idle0=False, pipelined=False,
-                 cross_slave=False, qdepth=None, rlen=0, eager_ready=False):
+                 cross_slave=False, qdepth=None, rlen=0, eager_ready=False, dw=32):
         self.name, self.proto, self.kind, self.nm, self.ns, self.mode = name, proto, kind, nm, ns, mode
+        self.dw, self.ones, self.strball = dw, (1 << dw) - 1, (1 << (dw//8)) - 1
         self.timeout, self.w_before_aw, self.w_late, self.greedy, self.err = timeout, w_before_aw, w_late, greedy, err
         self.fault_sw, self.die_after_accept = faults, die_after_accept
         self.idle_addr = 0 if idle0 else (1 << AWIDTH) - 1
@@ -95,7 +96,7 @@ class AxiIcHarness(Harness):
         self.cov = dict(collisions=0, w_first=0, b_backpressure=0, timeouts=0, rw_overlap=0, req_resp_same_cycle=0, max_outstanding=0)
 
     def build(self):
-        self.dut = AxiIcDUT(self.proto, self.kind, self.nm, self.ns, self.timeout)
+        self.dut = AxiIcDUT(self.proto, self.kind, self.nm, self.ns, self.timeout, self.dw)
         return self.dut
 
     def bind(self, D):
@@ -248,7 +249,7 @@ class AxiIcHarness(Harness):
             w = self.wpresent(env, ch, m)
             aw, wch, b = P["aw"], P["w"], P["b"]
             v[aw["valid"]], v[aw["addr"]] = 0, self.idle_addr
-            v[wch["valid"]], v[wch["data"]], v[wch["strb"]] = 0, 0xFFFFFFFF, 0xF
+            v[wch["valid"]], v[wch["data"]], v[wch["strb"]] = 0, self.ones, self.strball
             wc = ch[0][m][0]
             v[b["ready"]] = wc[-1] if wc[0] != "-" else 0
             if w is not None:
@@ -256,7 +257,7 @@ class AxiIcHarness(Harness):
                 if av:
                     v[aw["valid"]], v[aw["addr"]] = 1, mkaddr(t, m, tag)
                 if wv:
-                    v[wch["valid"]], v[wch["data"]], v[wch["strb"]] = 1, wdata(t, m, tag), 0xF
+                    v[wch["valid"]], v[wch["data"]], v[wch["strb"]] = 1, wdata(t, m, tag), self.strball
             if self.full:
                 v[aw["len"]] = v[aw["lock"]] = v[aw["cache"]] = v[aw["prot"]] = v[aw["qos"]] = v[aw["region"]] = 0
                 v[aw["size"]], v[aw["burst"]], v[aw["id"]] = 2, 1, m
@@ -289,7 +290,7 @@ class AxiIcHarness(Harness):
             rv = int((r_up or sc[4]) and bool(arq) and alive)
             v[P["r"]["valid"]] = rv
             v[P["r"]["resp"]] = (RESP_SLVERR if sc[5] else RESP_OKAY) if rv else 3
-            v[P["r"]["data"]] = (0xA000 | (rbeat << 12) | (j << 8) | (arq[0][0] << 4) | arq[0][1]) if rv else 0xFFFFFFFF
+            v[P["r"]["data"]] = (0xA000 | (rbeat << 12) | (j << 8) | (arq[0][0] << 4) | arq[0][1]) if rv else self.ones
             if self.full:
                 v[P["b"]["id"]] = awq[0][0] if bv else 3
                 v[P["r"]["id"]] = arq[0][0] if rv else 3
@@ -523,7 +524,7 @@ class AxiIcHarness(Harness):
                 else:
                     if not self.has_timeout:
                         return env, ("resp.r_invented", f"master {m} received an R that no slave sent"), 0
-                    if v[P["r"]["resp"]] != RESP_SLVERR or v[P["r"]["data"]] != 0xFFFFFFFF:
+                    if v[P["r"]["resp"]] != RESP_SLVERR or v[P["r"]["data"]] != self.ones:
                         return env, ("timeout.resp", f"master {m}: time-out read response resp={v[P['r']['resp']]} data={v[P['r']['data']]:#x}"), 0
                     to_r += 1
                 if lastbeat:
